@@ -11,12 +11,15 @@ HARNESS = ["network/transport/v2/zz_verif_c07_test.go", "network/transport/v2/zz
 
 PKG2 = "network"
 HARNESS2 = ["network/zz_verif_c15_test.go", "network/transport/grpc/zz_verif_export_c15.go"]
-HARNESSES = [(PKG, HARNESS, "c15"), (PKG2, HARNESS2, "c15cfg")]
+PKG3 = "network/transport/grpc"
+HARNESS3 = ["network/transport/grpc/zz_verif_c15_test.go"]
+HARNESSES = [(PKG, HARNESS, "c15"), (PKG2, HARNESS2, "c15cfg"), (PKG3, HARNESS3, "c15tls")]
 
 REQUIRED = ["payload_only_in_payload_msg", "private_payload_release_sound", "decrypt_iff_member", "payload_stored_only_if_hash_matches", "payload_with_transaction_only_if_hash_matches",
             "authn_sound", "tick_and_create_send_no_payload", "nonmember_cipher_gap",
             "fact_payload_query_checks", "fact_payload_finished_nil_guard", "fact_collect_guard", "fact_payload_store_checks", "fact_payload_writers", "fact_authenticate_steps",
-            "fact_authenticator_selection", "dummy_authenticator_only_without_tls", "configured_authn_sound"]
+            "fact_authenticator_selection", "release_only_to_listed_false", "release_only_to_listed_partial", "dummy_authenticator_only_without_tls", "configured_authn_sound",
+            "fact_server_tls_config", "authenticated_certificate_is_verified"]
 
 
 def run(ctx):
@@ -77,11 +80,30 @@ def run(ctx):
     # ---- oracle 1: every envelope whose wire bytes contain a private payload
     n_bad, gaps, leak_kinds = 0, Counter(), Counter()
     seen_sig = Counter()
+    known_sig, known_cases = {}, Counter()
     for lk in leaks:
         kind = palkinds.get(str(lk["tx"]), "?")
         listed = lambda d: d != "" and d in (lk["pal"] or [])
         leak_kinds[(lk["kind"], "peer-listed" if listed(lk["peer_did"]) else "peer-unlisted", "auth" if lk["peer_auth"] else "unauth",
                     "holder-listed" if listed(lk["src_did"]) else "holder-unlisted")] += 1
+        # the reply answers a query for ANOTHER transaction (ref_tx) that legitimately goes to this peer, and carries this
+        # transaction's payload because the two share a payload hash (the payload store is keyed by hash only)
+        ref_pal = lk.get("ref_pal") or []
+        via_other = (lk["kind"] == "pl" and lk.get("ref_tx", -1) not in (-1, lk["tx"]) and lk["peer_auth"]
+                     and lk["peer_did"] != "" and lk["peer_did"] in ref_pal)
+        if via_other and not (listed(lk["peer_did"]) and listed(lk["src_did"])):
+            sig, what = ("C15:payload-of-other-transaction-released-via-shared-payload-hash",
+                         f"payload of private tx {lk['tx']} (list {lk['pal']}) released in the reply for tx {lk['ref_tx']} (list {ref_pal}) which has the same payload hash")
+            seen_sig[sig] += 1
+            if seen_sig[sig] == 1:
+                v = by_name.get(lk["scenario"])
+                rp = replay_text(ops, header, v["first_op"], v["last_op"]) if v else json.dumps(lk)
+                known_sig[sig] = not ctx.violation(sig, f"{what}: {json.dumps(lk)[:300]}", f"{sig.split(':')[1]}.jsonl", rp)
+            if known_sig.get(sig):
+                known_cases[sig] += 1
+            else:
+                n_bad += 1
+            continue
         if lk["kind"] == "pl" and lk["peer_auth"] and listed(lk["peer_did"]):
             if listed(lk["src_did"]):
                 continue
@@ -177,6 +199,31 @@ def run(ctx):
                 else:
                     ctx.oblige("correspondence:model=impl(Network.Configure)", not bad2, f"{len(impl2)} lines")
 
+    # ---- oracle 5: the real server TLS configuration (newServerTLSConfig) over a real crypto/tls handshake: a client certificate that does
+    # not chain to the trust store (self-signed, other CA, none) is never accepted, in TLS 1.2 and 1.3
+    t_bad, tls_lines = 0, 0
+    if not ctx.replay or '"op":"tlsclient"' in open(ctx.replay).read(4096):
+        b3 = ctx.go_test_binary(PKG3, HARNESS3, "c15tls")
+        if b3 is None:
+            ctx.oblige("harness-builds:grpc.newServerTLSConfig", False, ctx.harness_error[-1200:])
+        else:
+            rc3, log3, out3 = ctx.run_harness(b3, "TestVerifC15ServerTLS", {}, outdir=os.path.join(ctx.scratch, "out-tls"), timeout=300)
+            ctx.oblige("harness-runs:grpc.newServerTLSConfig", rc3 == 0, log3[-1200:])
+            if rc3 == 0:
+                o3, i3, m3 = (os.path.join(out3, x) for x in ("ops.jsonl", "impl.out", "model.out"))
+                ctx.model("C15", o3, m3)
+                impl3, model3, bad3 = ctx.compare(i3, m3)
+                ops3 = ctx.read_lines(o3)
+                tls_lines = len(impl3)
+                for k, l in enumerate(impl3):
+                    j = json.loads(ops3[k])
+                    if "accepted=true" in l and not (j["presented"] and j["chains"]):
+                        t_bad += 1
+                        if t_bad == 1:
+                            ctx.violation("C15:untrusted-client-certificate-accepted", f"the TLS server accepted a client whose certificate does not chain to the trust store: {ops3[k]}", "tlsclient.jsonl", ops3[k])
+                ctx.oblige("oracle:client-certificate-must-chain-to-truststore(impl, real TLS handshake)", t_bad == 0, f"{t_bad} of {len(impl3)} handshakes")
+                ctx.oblige("correspondence:model=impl(server TLS)", (not bad3) or t_bad > 0, f"{len(impl3)} lines, differing {bad3[:3]}")
+
     # ---- correspondence
     if bad:
         i = bad[0]
@@ -197,7 +244,7 @@ def run(ctx):
         j = json.loads(l)
         opk[j["op"] + (":" + j["msg"]["t"] if j["op"] == "inject" else "")] += 1
     rets = Counter(re.match(r"ret=(\S+)", l).group(1) for l in impl if l.startswith("ret="))
-    ctx.cov["evaluations"] = len(steps) + cfg_lines
+    ctx.cov["evaluations"] = len(steps) + cfg_lines + tls_lines
     ctx.cov["distinct_nontrivial"] = len({(lk["scenario"], lk["tx"], lk["dst"]) for lk in leaks}) + len({(c["scenario"], c["node"], c["tx"], c["data"]) for c in stores})
     ctx.cov["traces_validated_against_impl"] = len(impl) - len(bad)
     ctx.cov["rule"] = ("holder node in 8 key situations (listed A / listed B / unlisted C able to decrypt an irregular header / no node DID / key missing / DID "
@@ -210,6 +257,7 @@ def run(ctx):
     ctx.cov["input_distribution"] = {"scenarios": len(verdicts), "step_kinds": dict(opk), "handler_outcomes": dict(rets),
                                      "envelopes_carrying_private_bytes": {" ".join(k): v for k, v in leak_kinds.items()},
                                      "gap_releases(holder can decrypt but is not listed)": dict(gaps),
+                                     "known_finding_cases": dict(known_cases),
                                      "store_probes": {" ".join(k): v for k, v in sk.items()},
                                      "authn_outcomes": dict(Counter(l.split()[1] for l in impl if l.startswith("authn "))),
                                      "network_configure_cases(tls x strict x nodeDID)": cfg_lines}
